@@ -66,8 +66,10 @@ func runC13(c *core.Ctx) {
 	c13IndexReads(c, pkg, class)
 	c13Caches(c, pkg)
 	c13Partition(c, pkg)
+	c13PartitionDerived(c, pkg, "R5")
 	c13Validity(c, pkg)
 	c13LowerBound(c, pkg, "R6")
+	c13WindowCheck(c, pkg, "R6")
 	c05Snapshot(c, pkg, "R9")
 	c13ImmutableIndex(c, pkg, "R7")
 	c13RefreshAll(c, pkg, "R8")
@@ -1114,5 +1116,97 @@ func c13LowerBound(c *core.Ctx, pkg *packages.Package, R string) {
 			}
 		}
 		c.Check(ok, R, "func="+name+":lower-bound", f.Pos(), fmt.Sprintf("the entry's lower validity bound is the start of the request's own window, now − period: %v", got), len(got))
+	}
+}
+
+// c13WindowCheck: the look-back getters hand out a cached subring only when the requested window's start
+// lies inside the entry's validity interval [after, before] — decided as a table over the two orderings
+// with every other condition of the function a free atom (nothing else can widen the interval).
+func c13WindowCheck(c *core.Ctx, pkg *packages.Package, R string) {
+	for _, name := range []string{"Ring.getCachedShuffledSubringWithLookback", "partitionRingShuffleShardCache.getSubringWithLookback"} {
+		fn := an.FindFunc(pkg, name)
+		if fn == nil {
+			c.Miss(R, "func="+name+":window", "not found")
+			continue
+		}
+		c.Analysed(fn.String())
+		g := fn.Graph()
+		var hits []an.Loc
+		for _, b := range g.Blocks {
+			if r := an.ReturnOf(b); r != nil && len(r.Results) == 1 && fn.Canon(r.Results[0]) != "nil" {
+				hits = append(hits, g.Locate(r))
+			}
+		}
+		// the entry read from the cache: any local with the two bound fields
+		entry := ""
+		fn.InspectShallow(func(n ast.Node) bool {
+			if sel, ok := n.(*ast.SelectorExpr); ok && sel.Sel.Name == "validForLookbackWindowsStartingAfter" && entry == "" {
+				entry = fn.Canon(sel.X)
+			}
+			return true
+		})
+		if len(hits) == 0 || entry == "" {
+			c.Undec(R, "func="+name+":window", fn.Pos(), "no cache-hit return / no read of the entry's validity bounds found")
+			continue
+		}
+		ws := "p3.Add(-p2).Unix()"
+		t := an.Table{G: g, From: g.EntryLoc(), FreeUnknown: true, MayOnly: true,
+			Atoms:   []an.Atom{{Name: "lo", Values: []string{"lt", "eq", "gt"}}, {Name: "hi", Values: []string{"lt", "eq", "gt"}}},
+			Binder:  &an.Binder{Fn: fn, Cmp: map[string]string{ws + "|" + entry + ".validForLookbackWindowsStartingAfter": "lo", ws + "|" + entry + ".validForLookbackWindowsStartingBefore": "hi"}},
+			Targets: hits,
+			Want: func(r an.Row, _ int) an.Tri {
+				if r["lo"] == "lt" || r["hi"] == "gt" {
+					return an.F
+				}
+				return an.U
+			}}
+		res := t.Run()
+		c.Check(res.OK(), R, "func="+name+":window", fn.Pos(), "no cache hit is reachable when the requested window starts before the entry's lower bound or after its upper bound, whatever else is tested: "+res.Summary(), res.Rows)
+	}
+}
+
+// c13PartitionDerived: a PartitionRing is a function of the descriptor it stores. Every composite literal
+// of the type (census over the package) fills the token list, the token→partition map and the other derived
+// fields from the very descriptor it stores in `desc` — nothing is carried over from an earlier ring.
+func c13PartitionDerived(c *core.Ctx, pkg *packages.Package, R string) {
+	want := map[string]string{"ringTokens": ".tokens()", "partitionByToken": ".partitionByToken()", "ownersByPartition": ".ownersByPartition()",
+		"activePartitionsCount": ".activePartitionsCount()", "maxPartitionID": ".maxPartitionID()"}
+	n := 0
+	for _, f := range an.Funcs(pkg) {
+		for _, lf := range append([]*an.Fn{f}, f.AllLits()...) {
+			lf := lf
+			lf.InspectShallow(func(x ast.Node) bool {
+				cl, ok := x.(*ast.CompositeLit)
+				if !ok {
+					return true
+				}
+				t := lf.Info().TypeOf(cl)
+				if t == nil || !strings.HasSuffix(t.String(), "ring.PartitionRing") {
+					return true
+				}
+				n++
+				vals := map[string]string{}
+				for _, el := range cl.Elts {
+					if kv, ok := el.(*ast.KeyValueExpr); ok {
+						if id, ok := kv.Key.(*ast.Ident); ok {
+							vals[id.Name] = lf.Canon(kv.Value)
+						}
+					}
+				}
+				d := vals["desc"]
+				var bad []string
+				for fld, suffix := range want {
+					if v, ok := vals[fld]; !ok || d == "" || v != d+suffix {
+						bad = append(bad, fmt.Sprintf("%s = %s", fld, v))
+					}
+				}
+				sort.Strings(bad)
+				c.Check(len(bad) == 0, R, "literal:PartitionRing:func="+an.FuncDisplay(f.Obj), cl.Pos(), fmt.Sprintf("derived fields computed from the stored descriptor %s itself: %v", d, bad), 1)
+				return true
+			})
+		}
+	}
+	if n == 0 {
+		c.Undec(R, "literal:PartitionRing", pkg.Syntax[0].Pos(), "no composite literal of PartitionRing found")
 	}
 }
